@@ -150,3 +150,58 @@ package security
 //@   ensures err == nil && len(mac) == 4 && fresh(mac)
 //@   ensures uint32(mac[0])<<24 | uint32(mac[1])<<16 | uint32(mac[2])<<8 | uint32(mac[3]) == spec.EIA1(ik, countI, bearer, direction, msg, length)
 //@ end
+
+//@ func NIA2(key, count, bearer, direction, msg) (mac, err)
+//@   requires len(msg) < 0x10000000
+//@   assigns nothing
+//@   specfuel 999
+//@   ensures err == nil && len(mac) == 4 && fresh(mac)
+//@   ensures forall(j, 0, 4, mac[j] == spec.EIA2(key, spec.EIA2Prefix(count, bearer, direction), msg, j))
+//@ end
+
+//@ func getWord(stream, i) (zi)
+//@   requires 0 <= i && i/32 < len(stream) && (i%32 == 0 || i/32 + 1 < len(stream))
+//@   assigns nothing
+//@   specfuel 9
+//@   ensures zi == spec.BitWord(stream, i)
+//@ end
+
+//@ func genMac(m, stream, blength) (mac)
+//@   requires 0 <= blength && blength <= 8*len(m) && blength < 0x10000000 && len(stream) == (blength+31)/32 + 2
+//@   assigns nothing
+//@   specfuel 999
+//@   opaque BitWord
+//@   recursive EIA3Acc
+//@   loop 0 invariant 0 <= i && i <= blength
+//@   loop 0 invariant t == spec.EIA3Acc(m, stream, i)
+//@   loop 0 decreases blength - i
+//@   ensures len(mac) == 4 && fresh(mac)
+//@   ensures uint32(mac[0])<<24 | uint32(mac[1])<<16 | uint32(mac[2])<<8 | uint32(mac[3]) == spec.EIA3Mac(m, stream, blength)
+//@ end
+
+// NIA3: the MAC is the EIA3 universal hash of the message over the ZUC keystream `stream` (local of NIA3) generated
+// for the integrity key and the EIA3 initialisation vector.
+//@ func NIA3(ik, count, bearer, direction, msg, length) (mac, err)
+//@   requires uint64(length) <= 8*uint64(len(msg)) && length < 0x10000000
+//@   assigns nothing
+//@   specfuel 999
+//@   opaque ZucKeystreamWord, EIA3Mac
+//@   ensures err == nil && len(mac) == 4 && fresh(mac)
+//@   ensures len(stream) == int((length+31)/32) + 2
+//@   ensures forall(k, 0, len(stream), stream[k] == spec.ZucKeystreamWord(ik, spec.EIA3IV(count, bearer, direction), k))
+//@   ensures uint32(mac[0])<<24 | uint32(mac[1])<<16 | uint32(mac[2])<<8 | uint32(mac[3]) == spec.EIA3Mac(msg, stream, int(length))
+//@ end
+
+//@ define MacOK(AlgoID, Bearer, Direction, msg) := Bearer <= 31 && Direction <= 1 && msg != nil && AlgoID <= 3
+
+//@ func NASMacCalculate(AlgoID, KnasInt, Count, Bearer, Direction, msg) (mac, err)
+//@   requires len(msg) < 0x2000000
+//@   assigns nothing
+//@   specfuel 999
+//@   opaque EIA1, EIA2
+//@   ensures implies(!MacOK(AlgoID, Bearer, Direction, msg), err != nil && mac == nil)
+//@   ensures implies(MacOK(AlgoID, Bearer, Direction, msg), err == nil && len(mac) == 4 && fresh(mac))
+//@   ensures implies(MacOK(AlgoID, Bearer, Direction, msg) && AlgoID == 0, mac[0] == 0 && mac[1] == 0 && mac[2] == 0 && mac[3] == 0)
+//@   ensures implies(MacOK(AlgoID, Bearer, Direction, msg) && AlgoID == 1, uint32(mac[0])<<24 | uint32(mac[1])<<16 | uint32(mac[2])<<8 | uint32(mac[3]) == spec.EIA1(KnasInt, Count, Bearer, uint32(Direction), msg, 8*uint64(len(msg))))
+//@   ensures implies(MacOK(AlgoID, Bearer, Direction, msg) && AlgoID == 2, forall(j, 0, 4, mac[j] == spec.EIA2(KnasInt, spec.EIA2Prefix(Count, Bearer, Direction), msg, j)))
+//@ end
